@@ -137,6 +137,26 @@ def sign_on_interval(P, q, interval):
     return 0 if not signs else None
 
 
+
+def status_table(repo, cname):
+    """{(user status, internal status): effective status} of <cname>.status by finite evaluation over LinkStatus x LinkStatus (names without prefix)."""
+    def ls(name):
+        return Obj("LinkStatus." + ("Open" if name == "Opened" else name))
+
+    def class_attr(d):
+        parts = d.split(".")
+        if len(parts) == 2 and parts[0] == "LinkStatus":
+            return ls(parts[1])
+        raise Unknown(d)
+    fn = repo.func(ELEM, "%s.status" % cname, kind="getter")
+    out = {}
+    for u, i in itertools.product(["Closed", "Open", "Active"], repeat=2):
+        ev = Evaluator({"self": Obj("self", {"_user_status": ls(u), "_internal_status": ls(i)})}, class_attr)
+        got = ev.run(fn.body)
+        out[(u, i)] = getattr(got, "name", str(got)).split(".")[-1]
+    return out
+
+
 def run(repo, chk):
     consts = B.constants(repo)
     csub = B.const_subs(consts)
